@@ -207,3 +207,283 @@ def normalize(func, module_tree=None, keep=None):
     f = _Fold().visit(f)
     ast.fix_missing_locations(f)
     return f
+
+
+# ---------------------------------------------------------------------------
+# statement-level inlining of private helpers that did not exist on the
+# reviewed tree ("extract function / extract method" refactorings)
+# ---------------------------------------------------------------------------
+import json as _json
+import os as _os
+
+_KNOWN = None
+
+
+def known_private(rel):
+    global _KNOWN
+    if _KNOWN is None:
+        p = _os.path.join(_os.path.dirname(_os.path.abspath(__file__)),
+                          'known_private.json')
+        with open(p) as fh:
+            _KNOWN = _json.load(fh)
+    return set(_KNOWN.get(rel, ()))
+
+
+def _single_exit(fd):
+    """Body without docstring when the helper is inlinable: no nested
+    defs / yields / global, return only as the last top-level statement."""
+    if fd.decorator_list and not all(
+            isinstance(d, ast.Name) and d.id == 'staticmethod'
+            for d in fd.decorator_list):
+        return None
+    a = fd.args
+    if a.vararg or a.kwarg or a.posonlyargs:
+        return None
+    body = [st for st in fd.body if not (isinstance(st, ast.Expr) and
+                                         isinstance(st.value, ast.Constant))]
+    if not body:
+        return None
+    for i, st in enumerate(body):
+        for n in ast.walk(st):
+            if isinstance(n, (ast.FunctionDef, ast.AsyncFunctionDef,
+                              ast.Lambda, ast.ClassDef, ast.Yield,
+                              ast.YieldFrom, ast.Global, ast.Nonlocal,
+                              ast.Await)):
+                return None
+            if isinstance(n, ast.Return) and not (
+                    n is st and i == len(body) - 1):
+                return None
+    return body
+
+
+class _Rename(ast.NodeTransformer):
+    def __init__(self, mapping):
+        self.mapping = mapping        # name -> expr node (Load) or new name
+
+    def visit_Name(self, node):
+        m = self.mapping.get(node.id)
+        if m is None:
+            return node
+        if isinstance(m, str):
+            return ast.copy_location(ast.Name(id=m, ctx=node.ctx), node)
+        if isinstance(node.ctx, ast.Load):
+            return ast.copy_location(copy.deepcopy(m), node)
+        return node
+
+
+def _simple(e):
+    while isinstance(e, ast.Attribute):
+        e = e.value
+    return isinstance(e, (ast.Name, ast.Constant))
+
+
+class _StmtInliner:
+    def __init__(self, helpers, class_names):
+        self.helpers = helpers          # key -> (FunctionDef, is_method)
+        self.class_names = class_names
+        self.counter = 0
+        self.count = 0
+
+    def resolve(self, call):
+        """(FunctionDef, receiver expr or None) for an inlinable call."""
+        f = call.func
+        if isinstance(f, ast.Name) and ('', f.id) in self.helpers:
+            return self.helpers[('', f.id)], None
+        if isinstance(f, ast.Attribute) and _simple(f.value):
+            for (cls, name), fd in self.helpers.items():
+                if cls and name == f.attr:
+                    static = any(isinstance(d, ast.Name) and
+                                 d.id == 'staticmethod'
+                                 for d in fd.decorator_list)
+                    if static:
+                        return fd, 'static'
+                    # Class._m(x) is not handled; recv._m(...) is
+                    if isinstance(f.value, ast.Name) and \
+                            f.value.id in self.class_names:
+                        return None, None
+                    return fd, f.value
+        return None, None
+
+    def expand(self, call, fd, recv):
+        """(statements, return expr) of the helper body specialised to the
+        call, or None."""
+        body = _single_exit(fd)
+        if body is None:
+            return None
+        params = [a.arg for a in fd.args.args]
+        defaults = dict(zip(params[len(params) - len(fd.args.defaults):],
+                            fd.args.defaults))
+        for a, d in zip(fd.args.kwonlyargs, fd.args.kw_defaults):
+            params.append(a.arg)
+            if d is not None:
+                defaults[a.arg] = d
+        bound = {}
+        pos = list(call.args)
+        if any(isinstance(x, ast.Starred) for x in pos) or any(
+                k.arg is None for k in call.keywords):
+            return None
+        plist = list(params)
+        if recv is not None and recv != 'static':
+            if not plist:
+                return None
+            bound[plist.pop(0)] = recv
+        if len(pos) > len(plist):
+            return None
+        for p, a in zip(plist, pos):
+            bound[p] = a
+        for k in call.keywords:
+            if k.arg not in plist or k.arg in bound:
+                return None
+            bound[k.arg] = k.value
+        for p in plist:
+            if p not in bound:
+                if p not in defaults:
+                    return None
+                bound[p] = defaults[p]
+        self.counter += 1
+        tag = '_inl%d_' % self.counter
+        stored = {x.id for st in body for x in ast.walk(st)
+                  if isinstance(x, ast.Name) and isinstance(
+                      x.ctx, (ast.Store, ast.Del))}
+        pre = []
+        mapping = {}
+        for p, a in bound.items():
+            if p in stored or not _simple(a):
+                tmp = tag + p
+                pre.append(ast.Assign(
+                    targets=[ast.Name(id=tmp, ctx=ast.Store())],
+                    value=copy.deepcopy(a)))
+                mapping[p] = tmp
+            else:
+                mapping[p] = a
+        for nm in stored:
+            if nm not in mapping:
+                mapping[nm] = tag + nm
+        out = []
+        ret = None
+        for st in body:
+            st2 = _Rename(mapping).visit(copy.deepcopy(st))
+            if isinstance(st2, ast.Return):
+                ret = st2.value
+            else:
+                out.append(st2)
+        stmts = pre + out
+        for s_ in stmts:
+            for x in ast.walk(s_):
+                ast.copy_location(x, call)
+        self.count += 1
+        return stmts, ret
+
+    def rewrite_block(self, stmts):
+        out = []
+        for st in stmts:
+            for fld in ('body', 'orelse', 'finalbody'):
+                blk = getattr(st, fld, None)
+                if isinstance(blk, list) and blk and isinstance(
+                        blk[0], ast.stmt):
+                    setattr(st, fld, self.rewrite_block(blk))
+            if isinstance(st, ast.Try):
+                for h in st.handlers:
+                    h.body = self.rewrite_block(h.body)
+            call = None
+            kind = None
+            if isinstance(st, ast.Expr) and isinstance(st.value, ast.Call):
+                call, kind = st.value, 'expr'
+            elif isinstance(st, ast.Assign) and isinstance(st.value,
+                                                           ast.Call):
+                call, kind = st.value, 'assign'
+            elif isinstance(st, ast.Return) and isinstance(st.value,
+                                                           ast.Call):
+                call, kind = st.value, 'return'
+            if call is not None and not isinstance(
+                    st, (ast.FunctionDef, ast.ClassDef)):
+                fd, recv = self.resolve(call)
+                if fd is not None:
+                    res = self.expand(call, fd, recv)
+                    if res is not None:
+                        body, ret = res
+                        none = ast.copy_location(ast.Constant(None), st)
+                        out.extend(body)
+                        if kind == 'assign':
+                            out.append(ast.copy_location(ast.Assign(
+                                targets=st.targets,
+                                value=ret if ret is not None else none), st))
+                        elif kind == 'return':
+                            out.append(ast.copy_location(ast.Return(
+                                value=ret if ret is not None else none), st))
+                        elif ret is not None and not isinstance(
+                                ret, (ast.Name, ast.Constant,
+                                      ast.Attribute)):
+                            out.append(ast.copy_location(
+                                ast.Expr(value=ret), st))
+                        continue
+            out.append(st)
+        return out
+
+
+def inline_new_helpers(tree, rel):
+    """Inline, statement-wise, calls of private single-exit helpers that the
+    reviewed tree did not have.  Returns the qualified names inlined."""
+    known = known_private(rel)
+    helpers = {}
+    class_names = set()
+
+    def collect(body, cls):
+        for n in body:
+            if isinstance(n, ast.ClassDef):
+                class_names.add(n.name)
+                collect(n.body, n.name)
+            elif isinstance(n, ast.FunctionDef):
+                q = (cls + '.' if cls else '') + n.name
+                if n.name.startswith('_') and not n.name.startswith('__') \
+                        and q not in known and _single_exit(n) is not None:
+                    helpers[(cls, n.name)] = n
+    collect(tree.body, '')
+    if not helpers:
+        return []
+    inl = _StmtInliner(helpers, class_names)
+
+    def apply(body):
+        for n in body:
+            if isinstance(n, ast.ClassDef):
+                apply(n.body)
+            elif isinstance(n, ast.FunctionDef):
+                for _ in range(2):
+                    before = inl.count
+                    n.body = inl.rewrite_block(n.body)
+                    if inl.count == before:
+                        break
+                # nested functions
+                for x in ast.walk(n):
+                    if isinstance(x, ast.FunctionDef) and x is not n:
+                        x.body = inl.rewrite_block(x.body)
+    apply(tree.body)
+    # a helper whose every use was inlined no longer exists as a function
+    # of its own: its statements are analysed where they run
+    if inl.count:
+        for (cls, name), fd in list(helpers.items()):
+            used = False
+            for n in ast.walk(tree):
+                if n is fd:
+                    continue
+                if isinstance(n, ast.Attribute) and n.attr == name or \
+                        isinstance(n, ast.Name) and n.id == name:
+                    # references inside the helper itself do not count
+                    if not any(x is n for x in ast.walk(fd)):
+                        used = True
+                        break
+            if used:
+                continue
+
+            def drop(body):
+                for i, x in enumerate(list(body)):
+                    if x is fd:
+                        del body[body.index(x)]
+                        return True
+                    if isinstance(x, ast.ClassDef) and drop(x.body):
+                        return True
+                return False
+            drop(tree.body)
+    ast.fix_missing_locations(tree)
+    return sorted((c + '.' if c else '') + n for c, n in helpers) \
+        if inl.count else []
